@@ -56,15 +56,14 @@ structure PState where
   peekErr : Option LexErr
   prev : Token
   tokenCount : Nat
-  limit : Nat
   pulls : Nat
   src : Nat
   oof : Bool
   deriving Repr, Inhabited
 
-def PState.init (limit src : Nat) (inp : Bytes) : PState :=
+def PState.init (src : Nat) (inp : Bytes) : PState :=
   { rest := inp, cur := Cur.init, err := none, peeked := false, peekTok := zeroTok, peekErr := none,
-    prev := zeroTok, tokenCount := 0, limit := limit, pulls := 0, src := src, oof := false }
+    prev := zeroTok, tokenCount := 0, pulls := 0, src := src, oof := false }
 
 /-- `p.lexer.ReadToken()` -/
 def PState.lexRead (s : PState) : Token × Option LexErr × PState :=
@@ -81,11 +80,11 @@ def PState.peekNC (s : PState) : Token × PState :=
     | (t, e, s') => (t, { s' with peeked := true, peekTok := t, peekErr := e })
 
 /-- `next` while `commentConsuming` is set -/
-def PState.nextNC (s : PState) : Token × PState :=
+def PState.nextNC (L : Nat) (s : PState) : Token × PState :=
   if s.err.isSome then (s.prev, s)
   else
     let s := { s with tokenCount := s.tokenCount + 1 }
-    if s.limit ≠ 0 ∧ s.tokenCount > s.limit then (s.prev, { s with err := some (.limit s.limit) })
+    if L ≠ 0 ∧ s.tokenCount > L then (s.prev, { s with err := some (.limit L) })
     else if s.peeked then
       (s.peekTok, { s with peeked := false, prev := s.peekTok, err := s.peekErr.map .lex })
     else
@@ -93,7 +92,7 @@ def PState.nextNC (s : PState) : Token × PState :=
       | (t, e, s') => (t, { s' with prev := t, err := e.map .lex })
 
 /-- the `for { consumeComment() }` loop of `consumeCommentGroup` -/
-def commentLoop : Nat → PState → PState
+def commentLoop (L : Nat) : Nat → PState → PState
   | 0, s => { s with oof := true }
   | n + 1, s =>
     if s.err.isSome then s            -- consumeComment: `if p.err != nil { return nil, false }`
@@ -101,37 +100,38 @@ def commentLoop : Nat → PState → PState
       match s.peekNC with
       | (tok, s1) =>
         if tok.kind ≠ .comment then s1
-        else commentLoop n s1.nextNC.2
+        else commentLoop L n (s1.nextNC L).2
 
 /-- `consumeCommentGroup` (called with `commentConsuming` clear).  Every comment consumed by the
-    loop after the first was lexed from `rest`, so `rest.length + 2` iterations suffice. -/
-def PState.consumeCommentGroup (s : PState) : PState :=
-  if s.err.isSome then s else commentLoop (s.rest.length + 2) s
+    loop after the first was lexed from `rest`, so `rest.length + 3` units of fuel suffice
+    (`GqlProofs/Parser/Fuel.lean`). -/
+def PState.consumeCommentGroup (L : Nat) (s : PState) : PState :=
+  if s.err.isSome then s else commentLoop L (s.rest.length + 3) s
 
 /-- `peek` -/
-def PState.peek (s : PState) : Token × PState :=
+def PState.peek (L : Nat) (s : PState) : Token × PState :=
   if s.err.isSome then (s.prev, s)
   else if s.peeked then (s.peekTok, s)
   else
     match s.lexRead with
     | (t, e, s1) =>
       let s2 := { s1 with peeked := true, peekTok := t, peekErr := e }
-      let s3 := if t.kind = .comment then s2.consumeCommentGroup else s2
+      let s3 := if t.kind = .comment then s2.consumeCommentGroup L else s2
       (s3.peekTok, s3)
 
 /-- `next` -/
-def PState.next (s : PState) : Token × PState :=
+def PState.next (L : Nat) (s : PState) : Token × PState :=
   if s.err.isSome then (s.prev, s)
   else
     let s := { s with tokenCount := s.tokenCount + 1 }
-    if s.limit ≠ 0 ∧ s.tokenCount > s.limit then (s.prev, { s with err := some (.limit s.limit) })
+    if L ≠ 0 ∧ s.tokenCount > L then (s.prev, { s with err := some (.limit L) })
     else if s.peeked then
       (s.peekTok, { s with peeked := false, prev := s.peekTok, err := s.peekErr.map .lex })
     else
       match s.lexRead with
       | (t, e, s1) =>
         let s2 := { s1 with prev := t, err := e.map .lex }
-        let s3 := if t.kind = .comment then s2.consumeCommentGroup else s2
+        let s3 := if t.kind = .comment then s2.consumeCommentGroup L else s2
         (s3.prev, s3)
 
 /-- `p.error(tok, …)` with the message already formatted -/
@@ -167,17 +167,15 @@ instance : Monad Prog where
   bind := Prog.bind
 
 /-- the interpreter: the only place where programs touch the state -/
-def run {α : Type} : Prog α → PState → α × PState
+def run {α : Type} (L : Nat) : Prog α → PState → α × PState
   | .pure a, s => (a, s)
-  | .peek k, s => match s.peek with
-    | (t, s') => run (k t) s'
-  | .next k, s => match s.next with
-    | (t, s') => run (k t) s'
-  | .hasErr k, s => run (k s.err.isSome) s
-  | .getPrev k, s => run (k s.prev) s
-  | .getSrc k, s => run (k s.src) s
-  | .fail tok msg k, s => run k (s.error tok msg)
-  | .oof k, s => run k { s with oof := true }
+  | .peek k, s => let r := s.peek L; run L (k r.1) r.2
+  | .next k, s => let r := s.next L; run L (k r.1) r.2
+  | .hasErr k, s => run L (k s.err.isSome) s
+  | .getPrev k, s => run L (k s.prev) s
+  | .getSrc k, s => run L (k s.src) s
+  | .fail tok msg k, s => run L k (s.error tok msg)
+  | .oof k, s => run L k { s with oof := true }
 
 def peek : Prog Token := .peek .pure
 def next : Prog Token := .next .pure
